@@ -157,6 +157,9 @@ def api_call(ex, st, args, ins, fn):
         st.ufapps.append((name, tuple(terms), elems))
         c = ex.new_cell(st, elems)
         return Slice(Ptr(c, ()), 0, n, n)
+    if short == 'verifAllocLimit':
+        st.ghost['alloc_limit'] = args[0]
+        return None
     if short == 'verifThorough':
         return ex.opts.get('tier') == 'thorough'
     if short == 'verifCase':
